@@ -116,13 +116,16 @@ type vmRun struct {
 
 var onThread bool    // set per run (single-threaded worker)
 var mainContext bool // with onThread: the main state keeps a context of its own that is never done
+var bare bool        // the program's entry is the first call ever made on the state
 
 func exec(proto *lua.FunctionProto, o lua.Options, withCtx bool, kind int, at int64, maxSteps int64) *vmRun {
-	h := hostapi.NewHost(hostapi.Options{LuaOptions: o, Kind: kind, At: at, MaxSteps: maxSteps, WithContext: withCtx, OnThread: onThread, MainContext: mainContext})
-	// math is needed by one template
-	h.L.Push(h.L.NewFunction(lua.OpenMath))
-	h.L.Push(lua.LString(lua.MathLibName))
-	h.L.Call(1, 0)
+	h := hostapi.NewHost(hostapi.Options{LuaOptions: o, Kind: kind, At: at, MaxSteps: maxSteps, WithContext: withCtx, OnThread: onThread, MainContext: mainContext, Bare: bare})
+	if !bare {
+		// math is needed by one template
+		h.L.Push(h.L.NewFunction(lua.OpenMath))
+		h.L.Push(lua.LString(lua.MathLibName))
+		h.L.Call(1, 0)
+	}
 	out := h.RunProto(proto)
 	return &vmRun{h: h, out: out}
 }
@@ -175,6 +178,12 @@ func (e *Engine) Run(t *core.Tape, cfg *core.Config, st *core.Stats) *core.Viola
 	}
 	// the context may be attached to a thread created from a context-less main state
 	onThread = name != "simlua" && t.Choose(3) == 0
+	bare = false
+	if !onThread && t.Choose(4) == 0 {
+		bare = true
+		name += "@bare"
+		st.Probe("entry_is_first_call_on_the_state")
+	}
 	mainContext = false
 	if onThread {
 		st.Probe("context_on_non_main_thread")
